@@ -830,3 +830,5 @@ package openflow13
 //@   inline
 //@   requires 16 + 2*len(ids) <= 65528
 //@   ensures r != nil && wf(r)
+
+//@ property C05 min-obligations 1500
